@@ -515,6 +515,11 @@ theorem translated_timeunits_convert_step_is_model (sm : Bool) (res : Rat) (g : 
 theorem translated_timeunits_convert_is_model (cs : List Char) :
     Gen.TrTu.convert cs = convert cs := tr_convert cs
 
+/-- the public `convert`: `try: return _convert(tstr) except ValueError as err: raise ValueError(…{err}…)` –
+    only ValueError is caught and it is re-raised with the same reason; nothing is swallowed -/
+theorem translated_timeunits_convert_public_is_model (cs : List Char) :
+    Gen.TrTu.convertPublic cs = convert cs := tr_convertPublic cs
+
 /-- the source text of the two regular expressions (layout of the VERBOSE form removed) and of `_NUM`, and
     their flags: what the hand-written matchers `matchTrad` / `matchIso` model.  Any edit of a pattern
     breaks this obligation. -/
